@@ -1507,6 +1507,26 @@ func (c *Conn) waitResponse(d *connDeadline, id int32) (deadline time.Time, size
 			break
 		}
 
+		if !deadline.IsZero() && !time.Now().Before(deadline) {
+			// The response at the head of the read buffer belongs to somebody
+			// else and this call's deadline has passed. Peek is served from
+			// the buffer and never touches the socket, so the deadline set on
+			// the socket cannot end this wait: a response that nobody takes (a
+			// duplicate, an unknown correlation id) would otherwise keep every
+			// waiting call spinning here forever, past its deadline and even
+			// past Close. As for a Peek that times out, the connection is
+			// given up; what is buffered goes with it, so that the other
+			// waiting calls fail instead of spinning on.
+			err = &net.OpError{Op: "read", Err: os.ErrDeadlineExceeded}
+			d.unsetConnReadDeadline()
+			c.abortRead()
+			if verifOn {
+				verifEvent("C.Peek", c, id, "err", "close")
+			}
+			c.rlock.Unlock()
+			break
+		}
+
 		// Optimistically release the read lock if a response has already
 		// been received but the current operation is not the target for it.
 		if verifOn {
